@@ -72,8 +72,6 @@ theorem C03_snapshot_admitted (i : Nat) : Asset.HostWrites (.snapshotH i) := tri
 
 /-! ## non-vacuity and the two recorded findings -/
 
-instance (s : State Nat) : Decidable (Quiescent s) := by unfold Quiescent; infer_instance
-
 /-- a newcomer is accepted while the host has a detected but unsent value 1 and a newer, undetected value 2; it
 receives the live 1, then its snapshot (2), then the late 1 again and finally 2 -/
 example :
@@ -101,9 +99,6 @@ example :
     Quiescent (run s0 [.connect, .snapshot]) ∧ (run s0 [.connect, .snapshot]).host.present = false ∧
     (run s0 [.connect, .snapshot]).j.present = true := by
   decide
-
-instance (s : Asset.State) : Decidable (Asset.Quiescent s) := by
-  unfold Asset.Quiescent Asset.Peer.idle; infer_instance
 
 /-- **D17 (recorded finding).** The snapshot for client 2 is built while the host is still downloading client 1's
 newer publication (7) that it has already relayed: client 2 queues the owner's announcement first and the host's
